@@ -10,7 +10,7 @@ use serde_json::Value;
 
 use super::PropDef;
 use crate::alloc;
-use crate::drivers::{run_on_reader, Final, ParserId, Spec};
+use crate::drivers::{run_on_init, run_on_reader, Final, ParserId, Spec};
 use crate::engine::{replay_from_file, CheckResult, Ctx, Failure, Obs};
 use crate::fail;
 use crate::source::SrcLog;
@@ -181,6 +181,22 @@ fn item(cfg: &Config, idx: u64, out: &mut Vec<u8>) {
         ParserId::Log => {
             // comment lines, and (with ignore_unknown_lines) lines of solver statistics; shape 1:
             // statistics only, so that nothing but ignored lines passes for a long time
+            if cfg.shape == 2 {
+                // a complete model first, then value lines that go on and on (ignored with
+                // ignore_unknown_lines once the assignment is finished)
+                if idx == 0 {
+                    out.extend_from_slice(b"s SATISFIABLE\nv 1 -2 0\n");
+                    return;
+                }
+                out.extend_from_slice(b"v");
+                let mut k = 0u64;
+                while out.len() + 8 < target {
+                    write!(out, " {}", mix(r, k) % 999 + 3).unwrap();
+                    k += 1;
+                }
+                out.push(b'\n');
+                return;
+            }
             let unknown = cfg.skip && (cfg.shape == 1 || r % 3 == 0);
             out.extend_from_slice(if unknown { b"| restarts " } else { b"c " });
             while out.len() + 1 < target {
@@ -239,6 +255,8 @@ struct Stream {
     pos: usize,
     header: Option<Vec<u8>>,
     log: Rc<RefCell<SrcLog>>,
+    /// Largest live heap seen at a read call once a megabyte has been delivered (steady state).
+    live_max: Rc<std::cell::Cell<usize>>,
 }
 
 impl Stream {
@@ -273,6 +291,7 @@ impl Stream {
                 pos: 0,
                 header,
                 log: log.clone(),
+                live_max: Rc::new(std::cell::Cell::new(0)),
             },
             log,
             items,
@@ -299,7 +318,7 @@ impl Read for Stream {
                     continue;
                 }
                 if self.idx == self.items && self.cfg.parser == ParserId::Log {
-                    self.cur = b"s SATISFIABLE\nv 1 -2 0\n".to_vec();
+                    self.cur = if self.cfg.shape == 2 { b"c end\n".to_vec() } else { b"s SATISFIABLE\nv 1 -2 0\n".to_vec() };
                     self.pos = 0;
                     self.idx += 1;
                     continue;
@@ -345,6 +364,9 @@ impl Read for Stream {
         let mut l = self.log.borrow_mut();
         l.calls += 1;
         l.delivered += n;
+        if l.delivered > 1 << 20 {
+            self.live_max.set(self.live_max.get().max(alloc::live_now()));
+        }
         Ok(n)
     }
 }
@@ -381,8 +403,19 @@ pub fn check(cfg: &Config, obs: &mut Obs) -> CheckResult {
     };
     let measured = alloc::installed();
     let (src, log, items) = Stream::new(cfg.clone());
-    let (reader, w) = make_reader(cfg, src);
-    let t = run_on_reader(&spec, reader, log.clone(), false);
+    let live_max = src.live_max.clone();
+    let base_live = alloc::live_now();
+    // from_buf_reader of the parser itself when nothing else has to be configured on the reader
+    let parser_ctor = cfg.bufreader.is_some() && cfg.chunk.is_none() && cfg.pre_chunk.is_none() && cfg.parser != ParserId::Log;
+    let (t, w) = if parser_ctor {
+        let br = std::io::BufReader::with_capacity(cfg.bufreader.unwrap_or(0), Box::new(src) as Box<dyn Read>);
+        let w = alloc::window();
+        (run_on_init(&spec, crate::source::Init::BufDyn(br), log.clone(), false), w)
+    } else {
+        let (reader, w) = make_reader(cfg, src);
+        (run_on_reader(&spec, reader, log.clone(), false), w)
+    };
+    obs.class_if(parser_ctor, "parser-level-from_buf_reader");
     let peak = w.peak();
     let delivered = log.borrow().delivered;
     let b = bound(cfg);
@@ -445,6 +478,19 @@ pub fn check(cfg: &Config, obs: &mut Obs) -> CheckResult {
             "{p}: {} items were generated but {} were returned; config {:?}",
             expect_items,
             t.item_count,
+            cfg
+        );
+    }
+    // what is held in the steady state, counted from before the BufReader was created (a
+    // BufReader that stays alive behind the parser is part of it)
+    let held = live_max.get().saturating_sub(base_live);
+    if measured && cfg.bufreader.is_some() && held > b {
+        fail!(
+            format!("C10:{p}:held-while-streaming"),
+            "{p}: {} bytes are held while streaming (sampled at the source's read calls, counted from before the BufReader of capacity {:?} was created), bound {}; config {:?}",
+            held,
+            cfg.bufreader,
+            b,
             cfg
         );
     }
@@ -598,9 +644,13 @@ fn config_strategy(quick: bool) -> impl Strategy<Value = Config> {
         any::<bool>(),
         prop_oneof![10 => Just(0u8), 2 => 1u8..=3, 1 => Just(4u8)],
         prop_oneof![4 => Just(None), 1 => proptest::sample::select(vec![1usize << 30, 1 << 20, 3, 100_000]).prop_map(Some)],
-        prop_oneof![5 => Just(None), 1 => proptest::sample::select(vec![0usize, 64, 8192, 4 << 20]).prop_map(Some)],
+        prop_oneof![2 => Just(None), 1 => proptest::sample::select(vec![0usize, 8192, 1 << 20, 2 << 20, 4 << 20]).prop_map(Some)],
+        0u8..3,
     )
-        .prop_map(move |(parser, chunk, read, max_item, seed, shape, skip, direct, pre_chunk, bufreader)| {
+        .prop_map(move |(parser, chunk, read, max_item, seed, shape, skip, direct, pre_chunk, bufreader, plain)| {
+            // two of three from_buf_reader configurations leave everything else at its default, so
+            // that the parser's own from_buf_reader constructor is the entry point
+            let (chunk, pre_chunk) = if bufreader.is_some() && plain != 0 { (None, None) } else { (chunk, pre_chunk) };
             let parser = if direct != 0 { ParserId::Cnf } else { parser };
             let max_item = if matches!(parser, ParserId::Aag | ParserId::Aig) { 64 } else { max_item };
             let mut cfg = Config {
@@ -610,13 +660,14 @@ fn config_strategy(quick: bool) -> impl Strategy<Value = Config> {
                 max_item,
                 seed,
                 n: 0,
-                skip: (skip || (parser == ParserId::Log && shape == 1)) && matches!(parser, ParserId::Aag | ParserId::Aig | ParserId::Log),
+                skip: (skip || (parser == ParserId::Log && (shape == 1 || shape == 2))) && matches!(parser, ParserId::Aag | ParserId::Aig | ParserId::Log),
                 direct,
                 pre_chunk: if chunk.is_some() { pre_chunk } else { None },
                 bufreader,
                 shape: match (parser, shape) {
                     _ if direct != 0 => 0,
                     (ParserId::Log, 1) => 1,
+                    (ParserId::Log, 2) => 2,
                     (ParserId::Log, _) => 0,
                     (ParserId::Btor2, 1) => 1,
                     (ParserId::Aig, 1) => 1,
